@@ -337,6 +337,9 @@ func cmdCheck(argv []string) int {
 				notes = append(notes, fmt.Sprintf("%s: reachable %s (reproduced natively: %v) - outside this property's claim", h.Fn, c.What, c.Reproduced))
 				continue
 			}
+			if strings.HasPrefix(c.What, "PROBE") && !c.Reproduced {
+				continue // the native run passed on the probe input: no information (the INCONCLUSIVE line stands)
+			}
 			if !c.Reproduced {
 				unconfirmed = append(unconfirmed, desc+" (solver witness did not reproduce natively: "+c.Native+")")
 				continue
